@@ -23,7 +23,7 @@ EXPLANATION = (
     'tensor is standardised with its own moments. Result dtype float64, ValueError on a wrong feature dimension, input '
     'untouched unless in_place on float64. Arithmetic carried out in a dtype narrower than float64 is wrapped in an '
     'uninterpreted NARROW_<dtype>, so precision lost in an intermediate is visible in the terms.')
-BOUNDS = {'quick': 'rank 1-3, extents 1-3, every axis (incl. negative), dtypes float64/float32/int16, norm_var on/off, in_place on/off, 2 splits per axis + reversed order + vector-wise: about 500 obligations; dimension mismatch: statistics of 1-3 coefficients against inputs of every other width 1-4 (vectors, tensors of rank 2-3, every axis, both in_place settings)',
+BOUNDS = {'quick': 'rank 1-3, extents 1-3, every axis (incl. negative), dtypes float64/float32/int16, norm_var on/off, in_place on/off, 2 splits per axis + reversed order + vector-wise: about 500 obligations; dimension mismatch: statistics of 1-3 coefficients against inputs of every other width 1-4 (vectors, tensors of rank 2-3, every axis, both in_place settings); apply -> accumulate(vector) -> apply sequences',
           'thorough': 'extents up to 4, 3-way splits'}
 OUTSIDE = ['floating-point cancellation (E[x^2] - mean^2 negative by round-off)', 'extents beyond the bound',
            'that the standardised output has variance exactly 1 follows from rho^2 * var = 1 (SQRT axiom), not re-derived numerically']
